@@ -2,6 +2,7 @@ package props
 
 import (
 	"context"
+	"encoding/json"
 	"fmt"
 	"sort"
 	"strings"
@@ -19,7 +20,7 @@ func init() {
 		ID:      "C17",
 		Level:   "exploration",
 		Workers: 16,
-		Rule: "seeded histories over 2-3 collections created in a FRESH store (collection-number allocation is part of the mechanism), overlapping keys and several clients per collection; after every request the store diff is partitioned by owner (collection number in -_-Datatypes / -_-Operations / -_-Snapshots / -_-Clients, name for user collections): a request issued under collection A may touch only A-owned documents; foreign requests (a client registered in A naming collection B; a client of A first sending a client message that names B - which must be refused without changing anything - and then asking for B's datatype; packs carrying the DUID of a datatype of B with every option-bit combination, sent by a client at sequence 1 and by one further along) must leave B-owned documents untouched and must not return operations of B; the same key in two collections yields two datatypes; ResetCollection(A) at random points removes every A-owned datatype, operation, snapshot and client document and the user collection A while the dump restricted to the other collections is identical; " +
+		Rule: "seeded histories over 2-3 collections created in a FRESH store (collection-number allocation is part of the mechanism), overlapping keys and several clients per collection; after every request the store diff is partitioned by owner (collection number in -_-Datatypes / -_-Operations / -_-Snapshots / -_-Clients, name for user collections): a request issued under collection A may touch only A-owned documents; foreign requests (a client registered in A naming collection B; a client of A first sending a client message that names B - which must be refused without changing anything - and then asking for B's datatype; packs carrying the DUID of a datatype of B with every option-bit combination, sent by a client at sequence 1 and by one further along) must leave B-owned documents untouched and must not return operations of B; the same key in two collections yields two datatypes, and the notifications a sync causes are published on <its own collection>/<key> with the id of that collection's datatype (never on the topic of the same key in another collection); ResetCollection(A) at random points removes every A-owned datatype, operation, snapshot and client document and the user collection A while the dump restricted to the other collections is identical; " +
 			"non-trivial = at least two collections hold the same key and at least one request crossed the collection boundary; distinct = hash of the step script",
 		Assumptions: []string{
 			"MongoDB is the in-memory stand-in; volatile timestamps are ignored in diffs",
@@ -205,6 +206,11 @@ func runC17(c *core.Case) *core.Result {
 			req := cl.BuildRequest()
 			ledger.Offer(req)
 			before := c17Take(b, numToName)
+			pubsBefore := b.MQ.NumPubs()
+			endBefore := map[string]int{}
+			for _, dd := range b.Datatypes() {
+				endBefore[dd.DUID] = len(b.Ops(dd.DUID))
+			}
 			c.Step("%s sync", cl.Alias)
 			ex := cl.Send(req)
 			if res := guard(ex); res != nil {
@@ -234,6 +240,33 @@ func runC17(c *core.Case) *core.Result {
 				}
 			}
 			c.Count("requests_with_partitioned_diff", 1)
+			// announcements stay inside the collection too: every notification this request caused
+			// is published on <its collection>/<key> of a datatype of that collection whose log
+			// grew, carries that datatype's id, and every such datatype is announced there
+			grown := map[string]string{} // topic -> duid
+			for _, dd := range b.Datatypes() {
+				if len(b.Ops(dd.DUID)) > endBefore[dd.DUID] {
+					grown[numToName[dd.CollectionNum]+"/"+dd.Key] = dd.DUID
+				}
+			}
+			announced := map[string]bool{}
+			for _, pb := range b.MQ.Pubs()[pubsBefore:] {
+				var n model.Notification
+				json.Unmarshal(pb.Payload, &n)
+				if !strings.HasPrefix(pb.Topic, cl.col+"/") {
+					return c.Violation("notification-on-foreign-topic", "a sync of %s (collection %s) caused a notification on topic %q (%s): subscribers of another collection are told about it, its own are not", cl.Alias, cl.col, pb.Topic, pb.Payload)
+				}
+				if duid, ok := grown[pb.Topic]; !ok || duid != n.DUID {
+					return c.Violation("notification-names-other-datatype", "a sync of %s (collection %s) caused a notification on %q carrying %s; datatypes whose log grew: %v", cl.Alias, cl.col, pb.Topic, pb.Payload, grown)
+				}
+				announced[pb.Topic] = true
+				c.Count("notifications_checked", 1)
+			}
+			for topic := range grown {
+				if !announced[topic] {
+					return c.Violation("push-not-announced-in-its-collection", "a sync of %s stored operations of %q but no notification was published on that topic (published: %v)", cl.Alias, topic, b.MQ.Pubs()[pubsBefore:])
+				}
+			}
 		case k < 18:
 			// foreign request
 			var victim *cli
